@@ -1,4 +1,4 @@
-CONSTANT ParserLimit = TRUE
+CONSTANT ParserLimit = FALSE
 SPECIFICATION Spec
 INVARIANT Emit
 CHECK_DEADLOCK FALSE
